@@ -161,6 +161,7 @@ def run(tier: str) -> int:
         _, id_, acc2, same_bytes, same_lines = reports[t["id"]]
         m = metas[id_]
         if not same_bytes:
+            m["acc2"] = bool(acc2) and t["fam"] == "S"      # the as-is renderer machine emits exactly the lines of the second pass
             fails.append((t, m))
         elif t["fam"] == "S" and not acc2:
             chk.drift_note(dict(m, why="second pass is not a behaviour of the renderer machine"))
@@ -327,6 +328,11 @@ def finding_for(m) -> str | None:
     # D44, second face: a loose list that OPENS an item writes its separator before the marker of that item (a blank line in front of the
     # enclosing item; inside a quote '>' first and '> ' + '>' after the next pass).  Attributed only if the source has that shape and the two
     # passes differ by nothing but blank / prefix-only lines
+    # family S: the renderer machine decides -- the second pass is exactly what the as-is machine emits (a change of the separator logic is not
+    # excused, whatever the shape) and the source has the shape of D44's second face, with any enclosing list
+    if m.get("acc2") and "D44" in KF_OPEN and d44_first_shape(project.parse_marko(m["src"]), any_enclosing=True):
+        if [l.rstrip() for l in m["pass1"].split("\n") if l.strip(" >") != ""] == [l.rstrip() for l in m["pass2"].split("\n") if l.strip(" >") != ""]:
+            return "D44"
     loose_mode = m["opts"].get("list_spacing") == "loose" or "loose" in m["opts"].get("cli", [])
     if "D44" in KF_OPEN and d44_first_shape(project.parse_marko(m["src"]), loose_mode):
         def solid(text):
